@@ -122,11 +122,12 @@ def r1(ctx: Ctx) -> None:
     area = ("p", 0)
     scalar_ok = any(st[0] == "if" and contains(st[1], "isinstance") and mk_lt(k_num(0), ("c", ("g", "float"), (area,), ())) in top_asserts(st[2])
                     or (st[0] == "if" and contains(st[1], "isinstance") and mk_lt(k_num(0), area) in top_asserts(st[2])) for st in ca)
-    dict_loops = _loops(ca, lambda lp: lp[2] == ("c", ("a", area, "items"), (), ()))
+    from .common import dict_loops as _dict_loops
+    dict_loops = _dict_loops(ca, area)
     dict_ok = False
-    if len(dict_loops) == 1 and dict_loops[0][1][0] == "tuple":
-        reg, a_ = dict_loops[0][1][1]
-        ta = top_asserts(dict_loops[0][3])
+    if len(dict_loops) == 1:
+        _lp, reg, a_ = dict_loops[0]
+        ta = top_asserts(_lp[3])
         dict_ok = mk_lt(k_num(0), a_) in ta and ("c", ("g", "is_number"), (a_,), ()) in ta and ("c", ("g", "valid_identifier"), (reg,), ()) in ta
     if not scalar_ok or not dict_ok:
         ctx.report(fa.where, f"reject-area scalar={scalar_ok} dict={dict_ok}", "a non-positive (or non-numeric) area is not refused in both the scalar and the per-region form",
@@ -195,11 +196,11 @@ def r1(ctx: Ctx) -> None:
     # 8: unknown attribute -- reader and constructor
     cr = canon_function(fr, m)
     ctx.site(fr.where, "reader: unknown module attribute refused")
-    key_loops = _loops(cr, lambda lp: lp[2] == ("c", ("a", ("p", 1), "items"), (), ()))
+    key_loops = [(x[0][0], x[0][1], x[0][2], x[0][3], x[0][4], x[1]) for x in _dict_loops(cr, ("p", 1))]
     ok = False
     known = {k_str(kw_value(ctx, k)) for k in ["KW_AREA", "KW_TERMINAL", "KW_FIXED", "KW_HARD", "KW_FLIP", "KW_CENTER", "KW_ASPECT_RATIO", "KW_RECTANGLES"]}
     if len(key_loops) == 1:
-        kv = key_loops[0][1][1][0]
+        kv = key_loops[0][5]
         # walk the if/elif chain: the final else must refuse
         st = [x for x in key_loops[0][3] if x[0] == "if"]
         seen = set()
